@@ -12,6 +12,7 @@ package main
 //@   property C05, C03, C18
 //@   loop 1
 //@     transition (=> (not (= format@iter "")) (= format format@iter))                                      [C05]
+//@     invariant (wfDocs (Parser.docs p) allocTop)
 //@   at call FileMatch#1
 //@     assert (= path@arg elem)                                                                             [C03]
 //@   at call Parser.OutputToWriter#1
